@@ -145,6 +145,7 @@ def _driver(S, relpath, fname, qual, warm, upd):
     ns['WarmStart'] = WS
 
     def solver_stub(objective, x, *a, **k):
+        rec['solver_args'] = a
         rec['solver_p'] = objective.p
         rec['solver_x'] = x
         rec['solver_precond_updates'] = list(P.cur().ghost.get('update_precond_at', []))
@@ -223,6 +224,10 @@ def _driver(S, relpath, fname, qual, warm, upd):
             o['returned_point_is_unscaled_solver_result'] = tm.and_(*ret.same_as(obj.invScaling * P.AVec.atom('x_solver')))
             if isinstance(r, tuple):
                 o['success_flag_is_the_solvers_flag_for_new_parameters'] = tm.eq(r[1], rec['flag'])
+            if fname == 'solve':
+                bnds = rec['solver_args'][0]
+                ok = isinstance(bnds, tuple) and len(bnds) == 3 and bnds[0] == 'bounds'
+                o['solver_receives_scaled_lower_and_upper_bounds'] = tm.and_(*(bnds[1].same_as(obj.scaling * lb) + bnds[2].same_as(obj.scaling * ub))) if ok else tm.FALSE
             if fname == 'bound_constrained_solve':
                 k = rec.get('al_kwargs', {})
                 o['inner_solver_does_not_warm_start_again'] = tm.TRUE if (k.get('useWarmStart') is False) else tm.FALSE
